@@ -17,9 +17,10 @@ use crate::ev::esc;
 use crate::out::{PropResult, Violation, J};
 use crate::par;
 use crate::prng::{fnv, Rng};
-use crate::sem::{check_streams, check_unit_order, streams, Sem, Streams};
+use crate::sem::{check_unit_order, streams, Sem, Streams};
 use crate::spec::parse_decl;
-use crate::wl::{Expect, Gen, GenOpts, LitOpts, MsgAst, Style};
+use crate::sem::{check_alternatives, MsgExpect};
+use crate::wl::{Expect, Fault, Gen, GenOpts, LitOpts, MsgAst, Style};
 
 #[derive(Default)]
 struct Acc {
@@ -29,6 +30,7 @@ struct Acc {
     units_abs: u64,
     units_common: u64,
     units_undefined_last: u64,
+    units_failing_mid_message: u64,
     msgs_empty: u64,
     msgs_trailing_semicolon: u64,
     by_delivery: BTreeMap<&'static str, u64>,
@@ -39,19 +41,25 @@ struct Acc {
 
 struct SeqMsg {
     bytes: Vec<u8>,
+    /// every unit runs
     expects: Vec<Expect>,
+    /// alternatives: execution stops after one of the failing units (C06 allows either)
+    alts: MsgExpect,
     desc: String,
 }
+
+const EXEC_FAULTS: [Fault; 7] =
+    [Fault::WrongKind, Fault::TooFew, Fault::TooMany, Fault::WrongType, Fault::OutOfRange, Fault::NotBool, Fault::Handler];
 
 fn gen_message(gen: &Gen, acc: &mut Acc, rng: &mut Rng, max_units: usize) -> SeqMsg {
     match rng.below(12) {
         0 => {
             acc.msgs_empty += 1;
-            return SeqMsg { bytes: b"\n".to_vec(), expects: vec![], desc: "empty".into() };
+            return SeqMsg { bytes: b"\n".to_vec(), expects: vec![], alts: MsgExpect { alts: vec![vec![]] }, desc: "empty".into() };
         }
         1 => {
             acc.msgs_empty += 1;
-            return SeqMsg { bytes: b"  \n".to_vec(), expects: vec![], desc: "white-space".into() };
+            return SeqMsg { bytes: b"  \n".to_vec(), expects: vec![], alts: MsgExpect { alts: vec![vec![]] }, desc: "white-space".into() };
         }
         _ => {}
     }
@@ -68,7 +76,21 @@ fn gen_message(gen: &Gen, acc: &mut Acc, rng: &mut Rng, max_units: usize) -> Seq
             di = rng.below(gen.iface.decls.len());
         }
         let was_empty = path.is_empty();
-        let u = gen.unit_for(di, &mut path, None, false, &lit, rng);
+        // sometimes the unit fails at execution (its header still resolves, so the path
+        // advances as for any other unit and later relative units depend on it)
+        let mut fault = None;
+        if rng.chance(1, 7) {
+            let f = *rng.pick(&EXEC_FAULTS);
+            let cands: Vec<usize> = (0..gen.iface.decls.len())
+                .filter(|d| gen.fault_applicable(*d, f) && (f == Fault::Handler || gen.iface.decls[*d].fails.is_none()))
+                .collect();
+            if !cands.is_empty() {
+                di = *rng.pick(&cands);
+                fault = Some(f);
+                acc.units_failing_mid_message += 1;
+            }
+        }
+        let u = gen.unit_for(di, &mut path, fault, false, &lit, rng);
         if gen.decls[di].is_common() {
             acc.units_common += 1;
         }
@@ -95,7 +117,8 @@ fn gen_message(gen: &Gen, acc: &mut Acc, rng: &mut Rng, max_units: usize) -> Seq
     let mut st = Style::plain();
     st.seed = rng.next();
     st.case = rng.below(3) as u8;
-    SeqMsg { bytes: ast.render(&st), expects: ast.expects(), desc: format!("{} units{}", ast.units.len(), if trailing { " + ';'" } else { "" }) }
+    let units: Vec<(Vec<Expect>, bool)> = ast.units.iter().map(|u| (u.expects.clone(), u.fault.is_some())).collect();
+    SeqMsg { bytes: ast.render(&st), expects: ast.expects(), alts: MsgExpect::from_units(&units), desc: format!("{} units{}", ast.units.len(), if trailing { " + ';'" } else { "" }) }
 }
 
 fn shard(ctx: &Ctx, ifaces: &[&'static IfaceDesc], shard: usize, cases: u64) -> Acc {
@@ -111,6 +134,7 @@ fn shard(ctx: &Ctx, ifaces: &[&'static IfaceDesc], shard: usize, cases: u64) -> 
         let refs: Vec<&[u8]> = msgs.iter().map(|m| &m.bytes[..]).collect();
         let stream: Vec<u8> = refs.concat();
         let expects: Vec<Expect> = msgs.iter().flat_map(|m| m.expects.iter().cloned()).collect();
+        let alts: Vec<MsgExpect> = msgs.iter().map(|m| m.alts.clone()).collect();
         acc.distinct.insert(fnv(&stream));
         par::case_begin(&stream, [shard as u64, case, 0, 0]);
         let queries: Vec<bool> = iface.decls.iter().map(|d| parse_decl(d.cmd).query).collect();
@@ -161,7 +185,7 @@ fn shard(ctx: &Ctx, ifaces: &[&'static IfaceDesc], shard: usize, cases: u64) -> 
             *acc.by_delivery.entry(delivery).or_default() += 1;
             let got = streams(&out.log);
             let mut bad: Option<(String, String)> = None;
-            if let Err(e) = check_streams(&expects, &got) {
+            if let Err(e) = check_alternatives(&alts, &got) {
                 bad = Some((classify(&expects, &got, delivery), e));
             }
             else if delivery.starts_with("run") {
@@ -271,6 +295,7 @@ pub fn run(ctx: &Ctx) -> PropResult {
     let mut by_delivery: BTreeMap<&'static str, u64> = BTreeMap::new();
     let mut trees = HashSet::new();
     let (mut rel, mut abs, mut com, mut und, mut emp, mut tr, mut ord, mut pend) = (0, 0, 0, 0, 0, 0, 0, 0);
+    let mut failing_mid = 0;
     for acc in accs {
         distinct.extend(acc.distinct);
         trees.extend(acc.trees);
@@ -281,6 +306,7 @@ pub fn run(ctx: &Ctx) -> PropResult {
         abs += acc.units_abs;
         com += acc.units_common;
         und += acc.units_undefined_last;
+        failing_mid += acc.units_failing_mid_message;
         emp += acc.msgs_empty;
         tr += acc.msgs_trailing_semicolon;
         ord += acc.order_checked;
@@ -300,13 +326,14 @@ pub fn run(ctx: &Ctx) -> PropResult {
     res.cov("absolute_units", abs);
     res.cov("common_units", com);
     res.cov("undefined_relative_last_units", und);
+    res.cov("units_failing_at_execution_followed_by_more_units", failing_mid);
     res.cov("empty_or_whitespace_messages", emp);
     res.cov("messages_ending_in_semicolon", tr);
     res.cov("run_logs_order_checked", ord);
     res.cov("pending_returns_injected", pend);
     res.cov("executions_by_delivery", J::Obj(by_delivery.into_iter().map(|(k, v)| (k.to_string(), J::Int(v as i64))).collect()));
     res.samples = vec![J::s("[\"A:B 1;C;*RST;:B:A? ON;C #13abc;\\n\", \"C\\n\"] as one run buffer")];
-    res.assumptions = vec!["handlers that fail are not addressed (C06 covers them)".into()];
+    res.assumptions = vec!["after a unit that fails at execution, either all or none of the later units may run (C06); when they run they must resolve relative to the failed unit's header".into()];
     if rel == 0 || com == 0 || und == 0 || tr == 0 {
         res.inconclusive = Some("a unit class was never generated".into());
     }
